@@ -27,6 +27,7 @@ Section ScanProofs.
   Local Notation scan_loop := (scan_loop contains insert txid_eqb id_item op_item).
   Local Notation scan := (scan contains insert txid_eqb id_item op_item).
   Local Notation Rel := (Rel contains id_item op_item).
+  Local Notation RelH := (RelH contains id_item op_item).
 
   Variable fl : uflag.
 
@@ -226,28 +227,36 @@ Section ScanProofs.
     Qed.
 
     (* ---------- completeness of one check ---------- *)
+    Section HotOutputs.
+    (* [Hot t k]: after any MATCHING call on t (against a filter above f0) the outpoint of
+       output k of t is in the filter.  Instance [hot0]: output k hits f0 and the flag allows. *)
+    Variable Hot : tx -> nat -> Prop.
+    Hypothesis Hot_inserted : forall f t k, le_f f0 f -> In t txs ->
+      fst (match_tx_update fl f t) = true -> Hot t k ->
+      contains (snd (match_tx_update fl f t)) (op_item (t_id t) (N.of_nat k)) = true.
+    Local Notation spends_hot := (spends_hot Hot).
+
     Definition outs_inserted (f : F) (tj : tx) : Prop :=
-      forall k o, nth_error (t_outs tj) k = Some o -> out_hit f0 o = true -> flag_allows fl (o_class o) = true ->
-                  contains f (op_item (t_id tj) (N.of_nat k)) = true.
+      forall k, Hot tj k -> contains f (op_item (t_id tj) (N.of_nat k)) = true.
 
     (* transaction j has been fully handled: its matching outputs' outpoints are in the
        filter and every indexed spender of such an outpoint is reported *)
     Definition Closed (idx : list entry) (st : sstate) (j : nat) : Prop :=
       forall tj, nth_error txs j = Some tj ->
         outs_inserted (s_f st) tj /\
-        forall d kd, In (d, kd) (deps idx (t_id tj)) -> spends_hit fl f0 d tj -> In kd (s_matched st).
+        forall d kd, In (d, kd) (deps idx (t_id tj)) -> spends_hot d tj -> In kd (s_matched st).
 
     Lemma Closed_mono idx (a b : sstate) j :
       le_f (s_f a) (s_f b) -> incl (s_matched a) (s_matched b) -> Closed idx a j -> Closed idx b j.
     Proof.
       intros Hle Hincl HC tj Hn. destruct (HC tj Hn) as [H1 H2]. split.
-      - intros k o Hk Hh Hfl. apply Hle. eapply H1; eauto.
+      - intros k Hk. apply Hle. eapply H1; eauto.
       - intros d kd Hd Hs. apply Hincl. eapply H2; eauto.
     Qed.
 
-    Lemma spends_hit_matches f d tj : outs_inserted f tj -> spends_hit fl f0 d tj -> matches_spec f d.
+    Lemma spends_hit_matches f d tj : outs_inserted f tj -> spends_hot d tj -> matches_spec f d.
     Proof.
-      intros Hoi [inp [k [o [Hin [Hh [Hi [Hn [Hhit Hfl]]]]]]]].
+      intros Hoi [inp [k [Hin [Hh [Hi Hhot]]]]].
       right. right. left. exists inp. split; [exact Hin|]. rewrite Hh, Hi. eapply Hoi; eauto.
     Qed.
 
@@ -285,9 +294,9 @@ Section ScanProofs.
           * (* the newly matched transaction itself *)
             intros tj Hnj'. rewrite Hn in Hnj'. inversion Hnj'; subst tj. clear Hnj'.
             assert (Hoi : outs_inserted f' t).
-            { intros k o Hk Hh Hfl. unfold f'. eapply match_inserts; eauto. }
+            { intros k Hk. unfold f'. eapply Hot_inserted; eauto. eapply nth_error_In; eauto. }
             split.
-            -- intros k o Hk Hh Hfl. apply Hle'. eapply Hoi; eauto.
+            -- intros k Hk. apply Hle'. eapply Hoi; eauto.
             -- intros d kd Hd Hs. eapply IHa; [exact Hd|]. cbn. eapply spends_hit_matches; eauto.
           * apply IHb; [exact Hj|]. cbn. intros [H|H]; [congruence | contradiction].
       - intros st Hinv _ _. split; [intros d kd []|]. intros j Hj Hnj. contradiction.
@@ -415,7 +424,7 @@ Section ScanProofs.
         + intros j Hj. destruct (in_dec Nat.eq_dec j (s_matched st)) as [Hold|Hnew].
           * (* reported before this step: old spenders stay reported, the new index entries are t's *)
             intros tj Hnj. destruct (Hcl j Hold tj Hnj) as [Hoi Hdeps]. split.
-            -- intros k' o Hk Hh Hfl. apply Hle1. eapply Hoi; eauto.
+            -- intros k' Hk. apply Hle1. eapply Hoi; eauto.
             -- intros d kd Hd Hs. fold idx' in Hd. rewrite <- Hidx', deps_app in Hd.
                apply in_app_or in Hd as [Hd|Hd].
                ++ apply Hincl. eapply Hdeps; eauto.
